@@ -390,7 +390,7 @@ func c17StartRS(ents []os.FileInfo, lookup bool) *peers.Srv {
 		fl = c17HL{h}
 	}
 	srv := peers.StartRS(sftp.Handlers{FileGet: h, FileList: fl})
-	srv.Handshake()
+	hHandshake(srv, nil)
 	return srv
 }
 
@@ -401,7 +401,7 @@ type c17Ent struct {
 }
 
 func c17ReadDir(srv *peers.Srv, dir string) ([]c17Ent, error) {
-	p, err := srv.Call(wire.Req(wire.Opendir, 1, wire.B{}.Str(dir)))
+	p, err := hCall(srv, nil, wire.Req(wire.Opendir, 1, wire.B{}.Str(dir)))
 	if err != nil {
 		return nil, err
 	}
@@ -412,7 +412,7 @@ func c17ReadDir(srv *peers.Srv, dir string) ([]c17Ent, error) {
 	h := hd.Str()
 	var out []c17Ent
 	for id := uint32(2); ; id++ {
-		p, err := srv.Call(wire.Req(wire.Readdir, id, wire.B{}.Str(h)))
+		p, err := hCall(srv, nil, wire.Req(wire.Readdir, id, wire.B{}.Str(h)))
 		if err != nil {
 			return out, err
 		}
@@ -440,13 +440,17 @@ func c17ReadDir(srv *peers.Srv, dir string) ([]c17Ent, error) {
 			return out, fmt.Errorf("NAME packet has %d trailing bytes", len(nd.B))
 		}
 	}
-	srv.Call(wire.Req(wire.Close, 0x7fffffff, wire.B{}.Str(h)))
+	hCall(srv, nil, wire.Req(wire.Close, 0x7fffffff, wire.B{}.Str(h)))
 	return out, nil
 }
 
+// c17ReqClass is the hang class of an attribute request (lib/budget.go): callers ask lib.Stop(c17ReqClass(typ)) before
+// sending one, so that a request kind the server does not answer costs a bounded number of hang deadlines.
+func c17ReqClass(typ byte) string { return fmt.Sprintf("c17/request-type-%d", typ) }
+
 // c17Attrs sends one attribute request and decodes the ATTRS answer.
 func c17Attrs(srv *peers.Srv, typ byte, id uint32, arg string) (wire.St, error) {
-	p, err := srv.Call(wire.Req(typ, id, wire.B{}.Str(arg)))
+	p, err := hCall(srv, lib.NewCase(c17ReqClass(typ)), wire.Req(typ, id, wire.B{}.Str(arg)))
 	if err != nil {
 		return wire.St{}, err
 	}
@@ -639,7 +643,7 @@ func checkC17RSList(c *lib.Ctx, only *uint32) {
 	srv := c17StartRS(ents, false)
 	got, err := c17ReadDir(srv, "/")
 	srv.CloseInput()
-	srv.Wait(5 * time.Second)
+	hCleanupSrv(srv, "c17/server-exit", 5*time.Second)
 	if err != nil || len(got) != len(ents) {
 		r.Fail(lib.Failure{Kind: "oracle", Key: "rs-list/readdir", What: "raw READDIR of the scripted directory failed or lost entries", Actual: fmt.Sprint(len(got), " of ", len(ents), " ", err)})
 	}
@@ -760,10 +764,10 @@ func checkC17OSDir(c *lib.Ctx, onlyKind string, onlyPerm *uint32) {
 		r.Fail(lib.Failure{Kind: "tie", Key: "os-start", What: err.Error()})
 		return
 	}
-	srv.Handshake()
+	hHandshake(srv, nil)
 	defer func() {
 		srv.CloseInput()
-		srv.Wait(5 * time.Second)
+		hCleanupSrv(srv, "c17/server-exit", 5*time.Second)
 	}()
 	id := uint32(100)
 	for _, k := range c17Kinds {
@@ -833,7 +837,7 @@ func checkC17OSDir(c *lib.Ctx, onlyKind string, onlyPerm *uint32) {
 					Input: in, Expected: fmt.Sprintf("%s %d %s %s %d", c17PosixLs(e.St.Perm), lst.Nlink, userOf(e.St.UID), groupOf(e.St.GID), e.St.Size), Actual: e.Long})
 			}
 			// LSTAT of the same entry (thorough: every entry; quick: a seed-dependent sample and the replayed entry)
-			if onlyPerm != nil || c.Tier == "thorough" || perm%64 == uint32(c.Seed)%64 || perm&0o7000 != 0 && perm&0o111 != 0 && perm%8 == uint32(c.Seed)%8 {
+			if (onlyPerm != nil || c.Tier == "thorough" || perm%64 == uint32(c.Seed)%64 || perm&0o7000 != 0 && perm&0o111 != 0 && perm%8 == uint32(c.Seed)%8) && !c.Stop(c17ReqClass(wire.Lstat)) {
 				id++
 				st, err := c17Attrs(srv, wire.Lstat, id, filepath.Join(d, e.Name))
 				r.Case("osdir lstat "+e.Name, true)
@@ -989,6 +993,9 @@ func checkC17RSShapes(c *lib.Ctx, only *c17Shape) {
 				name string
 				typ  byte
 			}{{"STAT", wire.Stat}, {"LSTAT", wire.Lstat}} {
+				if c.Stop(c17ReqClass(rq.typ)) {
+					continue
+				}
 				id++
 				st, err := c17Attrs(srv, rq.typ, id, "/"+name)
 				if err != nil {
@@ -997,8 +1004,11 @@ func checkC17RSShapes(c *lib.Ctx, only *c17Shape) {
 				}
 				judge(rq.name, s, st)
 			}
+			if c.Stop(c17ReqClass(wire.Fstat)) {
+				continue
+			}
 			id++
-			op, err := srv.Call(wire.Req(wire.Open, id, wire.B{}.Str("/"+name).U32(wire.FRead).U32(0)))
+			op, err := hCall(srv, nil, wire.Req(wire.Open, id, wire.B{}.Str("/"+name).U32(wire.FRead).U32(0)))
 			if err != nil || op.Typ != wire.Handle {
 				r.Fail(lib.Failure{Kind: "tie", Key: "rs-shape/open", What: fmt.Sprint("OPEN for FSTAT failed: ", err, " type ", op.Typ)})
 				continue
@@ -1013,11 +1023,11 @@ func checkC17RSShapes(c *lib.Ctx, only *c17Shape) {
 				judge("FSTAT", s, st)
 			}
 			id++
-			srv.Call(wire.Req(wire.Close, id, wire.B{}.Str(h)))
+			hCall(srv, nil, wire.Req(wire.Close, id, wire.B{}.Str(h)))
 		}
 		got, err := c17ReadDir(srv, "/")
 		srv.CloseInput()
-		srv.Wait(5 * time.Second)
+		hCleanupSrv(srv, "c17/server-exit", 5*time.Second)
 		if err != nil || len(got) != len(ents) {
 			r.Fail(lib.Failure{Kind: "oracle", Key: "rs-shape/readdir", What: "raw READDIR failed or lost entries", Actual: fmt.Sprint(len(got), " of ", len(ents), " ", err)})
 		}
